@@ -6,6 +6,8 @@ import (
 	"os"
 	"strings"
 
+	"verifharness/c01"
+	"verifharness/c04"
 	"verifharness/c06"
 	"verifharness/nd"
 )
@@ -16,6 +18,10 @@ type entry struct {
 }
 
 var registry = map[string]entry{
+	"c01.RunSteps":    {c01.Setup, c01.RunSteps},
+	"c04.RunNumber":   {c04.Setup, c04.RunNumber},
+	"c04.RunString":   {c04.Setup, c04.RunString},
+	"c04.RunBool":     {c04.Setup, c04.RunBool},
 	"c06.RunArith":    {c06.Setup, c06.RunArith},
 	"c06.RunMod":      {c06.Setup, c06.RunMod},
 	"c06.RunRounding": {c06.Setup, c06.RunRounding},
